@@ -57,7 +57,8 @@ def main(argv):
         except Exception as exc:  # noqa: BLE001
             loc = core.exc_location(exc)
             tb = traceback.format_exc()
-            if loc is not None and not getattr(mod, 'LIB_EXC_IS_ERROR', False):
+            if (loc is not None and not isinstance(exc, core.HarnessError)
+                    and not getattr(mod, 'LIB_EXC_IS_ERROR', False)):
                 # the library raised on an input the generator deems valid
                 case.nchecks += 1
                 case.violations.append({
